@@ -9,7 +9,7 @@ ALL = ['C%02d' % i for i in range(1, 21)]
 # property -> (category, technique, level text, level note, design ref)
 CHECKS = {
     'C18': ('exploration',
-            'runtime monitor on the real lexer token stream (hook): slice/end/order/indent/relex oracle; exhaustive token pairs + fuzz',
+            'runtime monitor on the real lexer token stream (hook): slice/end/order/indent/relex oracle; exhaustive token pairs + fuzz; thorough adds a Miri (undefined-behaviour interpreter) slice over the lexer and the Core printer',
             'Every adjacent pair of the token vocabulary x 4 separators is lexed by the real lexer and every token span is '
             'compared with the source text (exhaustive, both tiers); plus repository samples (LF and CRLF) and a seeded stream of '
             'mutated samples, string-heavy inputs, token soup and raw text. Held = no span/indent/relex violation on any accepted input.',
